@@ -130,6 +130,72 @@ func checkC15(c *km.Ctx) {
 	checkUpsertStatements(c, "R-C15-1", "user_profile", []string{"profile_data"}, 2)
 	checkGobStructs(c, "R-C15-1")
 	checkSchemasAgree(c, "R-C15-1")
+	// "a saved profile is read back identical": saved means committed - SaveUserProfile reports success only on
+	// a path on which the transaction's Commit returned no error (an error lost in a retry loop, a shadowed
+	// variable, reads as a save that never happened)
+	if fn := c.MustFunc("R-C15-1", "cmd/keymasterd", "(*RuntimeState).SaveUserProfile"); fn != nil {
+		committed := km.Prim{Name: "commit ok", Rel: func(f km.Fact, resolve func(ssa.Value) ssa.Value) bool {
+			if f.Op != token.EQL || f.Y == nil || !km.IsNilConst(f.Y) {
+				return false
+			}
+			cl, ok := km.Unwrap(resolve(f.X)).(*ssa.Call)
+			return ok && km.CalleeFull(cl.Common()) == "(*database/sql.Tx).Commit"
+		}}
+		n := 0
+		var judge func(f *ssa.Function, depth int)
+		judge = func(f *ssa.Function, depth int) {
+			for _, rc := range s.RetCases(f) {
+				if len(rc.Results) != 1 {
+					continue
+				}
+				v := km.Unwrap(rc.Results[0])
+				if cl, isC := v.(*ssa.Call); isC {
+					if km.CalleeFull(cl.Common()) == "(*database/sql.Tx).Commit" {
+						n++
+						continue // Commit's own verdict
+					}
+					// the verdict of a helper of this module: judged the same way
+					if g := km.StaticCallee(cl.Common()); g != nil && len(g.Blocks) > 0 && c.InModule(g) && depth < 2 {
+						judge(g, depth+1)
+						continue
+					}
+				}
+				bad := ""
+				nNil := 0
+				for _, k := range rc.State {
+					if !km.IsNilConst(v) {
+						// an error value: a failing return when the path knows it is not nil
+						known := false
+						for _, fc := range k.List() {
+							if fc.Op == token.NEQ && fc.Y != nil && km.IsNilConst(fc.Y) && km.Unwrap(fc.X) == v {
+								known = true
+							}
+						}
+						if known {
+							continue
+						}
+					}
+					nNil++
+					if !s.Holds(k, committed) {
+						bad = clipS(km.DNF{k}.String(), 200)
+					}
+				}
+				if nNil == 0 {
+					continue
+				}
+				n++
+				found := sprintf("%d path(s), each after a Commit that returned nil", nNil)
+				if bad != "" {
+					found = "success can be reported under " + bad
+				}
+				r.Add("R-C15-1", km.FuncName(f), "success only after the save was committed", posOf(c, rc.Ret), "every return that can carry a nil error follows Commit() == nil", found, bad == "")
+			}
+		}
+		judge(fn, 0)
+		if n == 0 {
+			r.AnchorLost("R-C15-1", "returns of SaveUserProfile")
+		}
+	}
 	if fn := c.MustFunc("R-C15-1", "cmd/keymasterd", "(*RuntimeState).SaveUserProfile"); fn != nil {
 		n := 0
 		for _, ci := range km.CallsIn(fn) {
